@@ -141,6 +141,15 @@ Section PoolGuard.
     forallb (fun i => forallb (fun j => forallb (fun k => implb (tst i j && tst j k) (tst i k)) idx) idx) idx.
   Definition pool_ok : bool := pool_hashable && pool_coherent && pool_equiv.
 End PoolGuard.
+(* keys on which the unchanged implementation is coherent under eql: nil, t, fixnums, characters, strings,
+   symbols (compared by value / spelling by eql and by Go's ==) and vectors (by identity by both) *)
+Definition simple_key (x : obj) : bool :=
+  match x with Nil | Tru | Fix _ | Chr _ | Str _ | Sym _ | Vec _ => true | _ => false end.
+Definition simple_pool (pool : list ref) : bool := forallb (fun r => simple_key (r_obj r)) pool.
+(* nil and t are each one interface value: all their references carry the same data word *)
+Definition const_words (a b : ref) : Prop :=
+  r_obj a = r_obj b -> (r_obj a = Nil \/ r_obj a = Tru) -> r_word a = r_word b.
+
 Definition pool_test (t : N) (pool : list ref) (i j : nat) : bool :=
   match nth_error pool i, nth_error pool j with
   | Some a, Some b => test_fn t a b
